@@ -118,6 +118,22 @@ theorem lookup_home_self (h : Heap) (x : Nat) (s : String) :
 
 /-! ### one step -/
 
+theorem alloc_no_write (h : Heap) (k : String) (r : Nat) (hh : Homed h) :
+    Homed (alloc h k r).1 ∧ h.n ≤ (alloc h k r).1.n ∧ (∀ a, a < h.n → (alloc h k r).1.home a = h.home a) ∧
+      (alloc h k r).1.home (alloc h k r).2 = r := by
+  refine ⟨?_, Nat.le_succ _, fun a ha => upd_other _ _ _ _ (Nat.ne_of_lt ha), upd_same _ _ _⟩
+  intro r' s' a' hfa
+  have := hh r' s' a' hfa
+  exact ⟨Nat.lt_succ_of_lt this.1, by
+    show upd h.home h.n r a' = r'
+    rw [upd_other _ _ _ _ (Nat.ne_of_lt this.1)]; exact this.2⟩
+
+theorem alloc_home_self (h : Heap) (k : String) (x : Nat) : (alloc h k (h.home x)).1.home x = h.home x := by
+  show upd h.home h.n (h.home x) x = h.home x
+  by_cases e : x = h.n
+  · rw [e, upd_same]
+  · exact upd_other _ _ _ _ e
+
 /-- assigning an object the home it already has changes nothing -/
 theorem upd_home_noop (h : Heap) (u : Nat) : upd h.home u (h.home u) = h.home := by
   funext j
@@ -183,8 +199,8 @@ theorem step_no_write (cfg : Cfg) (h : Heap) (op : HOp) (hh : Homed h) (hw : wri
           rw [construct_fast_noop cfg h u g e]
           exact ⟨hh, Nat.le_refl _, fun a _ => rfl⟩
   | convert ep x t =>
-    rw [show step cfg h (.convert ep x t) = construct cfg (sanitize h x t).1 (sanitize h x t).2
-        (if cfg.passes ep then some ((sanitize h x t).1.home x) else none) true from rfl]
+    rw [show step cfg h (.convert ep x t) = construct cfg (sanitize cfg ep h x t).1 (sanitize cfg ep h x t).2
+        (if cfg.passes ep then some ((sanitize cfg ep h x t).1.home x) else none) true from rfl]
     cases t with
     | str s =>
       have hl := lookup_homed h (h.home x) s hh
@@ -196,20 +212,34 @@ theorem step_no_write (cfg : Cfg) (h : Heap) (op : HOp) (hh : Homed h) (hw : wri
       · rw [if_neg p]
         exact ⟨hl.1, lookup_n h _ s, fun a ha => lookup_home_old h _ s a ha⟩
     | obj a =>
-      simp only [sanitize]
-      by_cases p : cfg.passes ep = true
-      · rw [if_pos p]
-        simp only [writes, p, Bool.true_and, Bool.and_eq_false_iff, bne_eq_false_iff_eq] at hw
-        cases hw with
-        | inl f =>
-          unfold construct
-          simp only [if_true, f, Bool.false_eq_true, if_false]
-          exact ⟨hh, Nat.le_refl _, fun _ _ => trivial⟩
-        | inr e =>
-          rw [construct_fast_noop cfg h a _ e]
+      by_cases rl : (cfg.relabels ep && h.home a != h.home x) = true
+      · have hal := alloc_no_write h (h.key a) (h.home x) hh
+        have hx := alloc_home_self h (h.key a) x
+        simp only [sanitize, rl, if_true]
+        by_cases p : cfg.passes ep = true
+        · rw [if_pos p, construct_fast_noop cfg _ _ _ (by rw [hx, hal.2.2.2])]
+          exact ⟨hal.1, hal.2.1, hal.2.2.1⟩
+        · rw [if_neg p]
+          exact ⟨hal.1, hal.2.1, hal.2.2.1⟩
+      · simp only [sanitize, rl, Bool.false_eq_true, if_false]
+        by_cases p : cfg.passes ep = true
+        · rw [if_pos p]
+          by_cases f : cfg.fastAssigns = true
+          · have e : h.home x = h.home a := by
+              by_cases e : h.home x = h.home a
+              · exact e
+              · exfalso
+                have e' : h.home a ≠ h.home x := fun q => e q.symm
+                cases hr : cfg.relabels ep with
+                | true => simp [hr, e'] at rl
+                | false => simp [writes, p, f, hr, e] at hw
+            rw [construct_fast_noop cfg h a _ e]
+            exact ⟨hh, Nat.le_refl _, fun a _ => rfl⟩
+          · unfold construct
+            simp only [if_true, f, Bool.false_eq_true, if_false]
+            exact ⟨hh, Nat.le_refl _, fun _ _ => trivial⟩
+        · rw [if_neg p]
           exact ⟨hh, Nat.le_refl _, fun a _ => rfl⟩
-      · rw [if_neg p]
-        exact ⟨hh, Nat.le_refl _, fun a _ => rfl⟩
 
 theorem step_keeps_homes (cfg : Cfg) (h : Heap) (op : HOp) (hh : Homed h) (hw : writes cfg h op = false)
     (a : Nat) (ha : a < h.n) : (step cfg h op).1.home a = h.home a :=
@@ -247,10 +277,13 @@ theorem step_write_moves (cfg : Cfg) (h : Heap) (op : HOp) (hw : writes cfg h op
     | obj a =>
       simp only [writes, Bool.and_eq_true, bne_iff_ne, ne_eq] at hw
       refine ⟨a, ?_, fun hr => hr.2⟩
-      show (construct cfg h a (if cfg.passes ep then some (h.home x) else none) true).1.home a ≠ h.home a
-      rw [if_pos hw.1.1]
+      have hrl : cfg.relabels ep = false := by simpa using hw.1.2
+      show (construct cfg (sanitize cfg ep h x (.obj a)).1 (sanitize cfg ep h x (.obj a)).2
+        (if cfg.passes ep then some ((sanitize cfg ep h x (.obj a)).1.home x) else none) true).1.home a ≠ h.home a
+      simp only [sanitize, hrl, Bool.false_and, Bool.false_eq_true, if_false]
+      rw [if_pos hw.1.1.1]
       unfold construct
-      simp only [if_true, hw.1.2]
+      simp only [if_true, hw.1.1.2]
       show upd h.home a (h.home x) a ≠ h.home a
       rw [upd_same]; exact hw.2
 
@@ -297,17 +330,22 @@ theorem homed_empty : Homed {} := by
 /-! ### conversions to a unit OBJECT -/
 
 /-- the converted data are labelled with the very object the caller passed -/
-theorem convert_labels_with_target (cfg : Cfg) (h : Heap) (ep : String) (x a : Nat) :
+theorem convert_labels_with_target (cfg : Cfg) (h : Heap) (ep : String) (x a : Nat)
+    (hr : cfg.relabels ep = false) :
     (step cfg h (.convert ep x (.obj a))).2 = a := by
-  show (construct cfg h a (if cfg.passes ep then some (h.home x) else none) true).2 = a
+  show (construct cfg (sanitize cfg ep h x (.obj a)).1 (sanitize cfg ep h x (.obj a)).2
+        (if cfg.passes ep then some ((sanitize cfg ep h x (.obj a)).1.home x) else none) true).2 = a
+  simp only [sanitize, hr, Bool.false_and, Bool.false_eq_true, if_false]
   unfold construct
   cases cfg.passes ep <;> simp
 
 /-- an entry point that passes `registry=` to the assigning fast path re-homes the CALLER's target object -/
 theorem passing_convert_rehomes (cfg : Cfg) (h : Heap) (ep : String) (x a : Nat)
-    (hp : cfg.passes ep = true) (hf : cfg.fastAssigns = true) :
+    (hp : cfg.passes ep = true) (hf : cfg.fastAssigns = true) (hr : cfg.relabels ep = false) :
     (step cfg h (.convert ep x (.obj a))).1.home a = h.home x := by
-  show (construct cfg h a (if cfg.passes ep then some (h.home x) else none) true).1.home a = h.home x
+  show (construct cfg (sanitize cfg ep h x (.obj a)).1 (sanitize cfg ep h x (.obj a)).2
+        (if cfg.passes ep then some ((sanitize cfg ep h x (.obj a)).1.home x) else none) true).1.home a = h.home x
+  simp only [sanitize, hr, Bool.false_and, Bool.false_eq_true, if_false]
   rw [if_pos hp]
   unfold construct
   simp only [if_true, hf]
@@ -316,13 +354,15 @@ theorem passing_convert_rehomes (cfg : Cfg) (h : Heap) (ep : String) (x a : Nat)
 /-- … after which the target's registry hands out, for the string it cached the object under, a unit that
     belongs to the data's registry -/
 theorem passing_convert_breaks_homed (cfg : Cfg) (h : Heap) (ep : String) (x a : Nat) (s : String)
-    (hp : cfg.passes ep = true) (hf : cfg.fastAssigns = true)
+    (hp : cfg.passes ep = true) (hf : cfg.fastAssigns = true) (hr : cfg.relabels ep = false)
     (hc : find (h.cache (h.home a)) s = some a) (hne : h.home x ≠ h.home a) :
     ¬ Homed (step cfg h (.convert ep x (.obj a))).1 := by
   intro hh
-  have hm := passing_convert_rehomes cfg h ep x a hp hf
+  have hm := passing_convert_rehomes cfg h ep x a hp hf hr
   have hcache : (step cfg h (.convert ep x (.obj a))).1.cache = h.cache := by
-    show (construct cfg h a (if cfg.passes ep then some (h.home x) else none) true).1.cache = h.cache
+    show (construct cfg (sanitize cfg ep h x (.obj a)).1 (sanitize cfg ep h x (.obj a)).2
+        (if cfg.passes ep then some ((sanitize cfg ep h x (.obj a)).1.home x) else none) true).1.cache = h.cache
+    simp only [sanitize, hr, Bool.false_and, Bool.false_eq_true, if_false]
     rw [if_pos hp]
     unfold construct
     simp only [if_true, hf]
@@ -347,11 +387,93 @@ theorem witness_homed : Homed witnessHeap := by
     · rw [if_neg e2] at hf; simp [find] at hf
   · simp [witnessHeap, e, find] at hf
 
-example : ¬ Homed (step ⟨fun _ => true, true⟩ witnessHeap (.convert "to" 1 (.obj 0))).1 :=
-  passing_convert_breaks_homed _ witnessHeap "to" 1 0 "m" rfl rfl rfl (by decide)
+example : ¬ Homed (step ⟨fun _ => true, true, fun _ => false⟩ witnessHeap (.convert "to" 1 (.obj 0))).1 :=
+  passing_convert_breaks_homed _ witnessHeap "to" 1 0 "m" rfl rfl rfl rfl (by decide)
 
-example : Homed (run ⟨fun _ => false, true⟩ witnessHeap [.convert "to" 1 (.obj 0), .lookup 0 "m", .arith 1 0 "m**2"]) :=
+example : Homed (run ⟨fun _ => false, true, fun _ => false⟩ witnessHeap [.convert "to" 1 (.obj 0), .lookup 0 "m", .arith 1 0 "m**2"]) :=
   (run_safe _ _ (by decide) witnessHeap witness_homed).1
+
+/-! ### "use the left operand's registry": whose registry the converted data belong to -/
+
+/-- the FULL statement: converted data belong to the registry of the data (the left operand) -/
+def convert_uses_left_full (cfg : Cfg) : Prop :=
+  ∀ (h : Heap) (ep : String) (x : Nat) (t : Target), Homed h →
+    (step cfg h (.convert ep x t)).1.home (step cfg h (.convert ep x t)).2 = h.home x
+
+/-- the target is a string, or a unit object of the data's own registry -/
+def sameRegistryTarget (h : Heap) (x : Nat) : Target → Bool
+  | .str _ => true
+  | .obj a => h.home a == h.home x
+
+/-- it holds when the target is a string / a unit of the same registry, and for every target through an entry
+    point that relabels foreign objects — for every configuration of the fast path -/
+theorem convert_uses_left_partial (cfg : Cfg) (h : Heap) (ep : String) (x : Nat) (t : Target) (hh : Homed h)
+    (hg : sameRegistryTarget h x t = true ∨ cfg.relabels ep = true) :
+    (step cfg h (.convert ep x t)).1.home (step cfg h (.convert ep x t)).2 = h.home x := by
+  rw [show step cfg h (.convert ep x t) = construct cfg (sanitize cfg ep h x t).1 (sanitize cfg ep h x t).2
+        (if cfg.passes ep then some ((sanitize cfg ep h x t).1.home x) else none) true from rfl]
+  have key : ∀ (h' : Heap) (u : Nat), h'.home x = h.home x → h'.home u = h.home x →
+      (construct cfg h' u (if cfg.passes ep then some (h'.home x) else none) true).1.home
+        (construct cfg h' u (if cfg.passes ep then some (h'.home x) else none) true).2 = h.home x := by
+    intro h' u hx hu
+    by_cases p : cfg.passes ep = true
+    · rw [if_pos p, construct_fast_noop cfg h' u _ (by rw [hx, hu])]; exact hu
+    · rw [if_neg p]; exact hu
+  cases t with
+  | str s =>
+    simp only [sanitize]
+    exact key _ _ (lookup_home_self h x s) (lookup_homed h (h.home x) s hh).2.2
+  | obj a =>
+    by_cases rl : (cfg.relabels ep && h.home a != h.home x) = true
+    · simp only [sanitize, rl, if_true]
+      exact key _ _ (alloc_home_self h (h.key a) x) (alloc_no_write h (h.key a) (h.home x) hh).2.2.2
+    · simp only [sanitize, rl, Bool.false_eq_true, if_false]
+      refine key h a rfl ?_
+      cases hg with
+      | inl g => simpa [sameRegistryTarget] using g
+      | inr g =>
+        by_cases e : h.home a = h.home x
+        · exact e
+        · simp [g, e] at rl
+
+/-- an entry point that labels the data with the caller's object cannot meet BOTH clauses of the property for a
+    target of another registry, whatever it passes to whatever fast path: either the converted data belong to the
+    target's registry ("use the left operand's registry" fails — the unrepaired library) or the target object was
+    moved ("never write to either" fails — the seeded change) -/
+theorem labelling_with_target_cannot_satisfy_both (cfg : Cfg) (h : Heap) (ep : String) (x a : Nat)
+    (hr : cfg.relabels ep = false) (hne : h.home a ≠ h.home x) :
+    (step cfg h (.convert ep x (.obj a))).1.home (step cfg h (.convert ep x (.obj a))).2 ≠ h.home x ∨
+      (step cfg h (.convert ep x (.obj a))).1.home a ≠ h.home a := by
+  rw [convert_labels_with_target cfg h ep x a hr]
+  by_cases e : (step cfg h (.convert ep x (.obj a))).1.home a = h.home a
+  · left; rw [e]; exact hne
+  · right; exact e
+
+/-- … so the full statement FAILS for the unrepaired configuration (no `registry=` passed, nothing relabelled):
+    data of registry 1 converted to the cached metre of registry 0 belong to registry 0 -/
+theorem convert_uses_left_counterexample (cfg : Cfg) (hp : cfg.passes "to" = false) (hr : cfg.relabels "to" = false) :
+    ¬ convert_uses_left_full cfg := by
+  intro hfull
+  have h1 := hfull witnessHeap "to" 1 (.obj 0) witness_homed
+  rw [convert_labels_with_target cfg witnessHeap "to" 1 0 hr] at h1
+  have h2 : (step cfg witnessHeap (.convert "to" 1 (.obj 0))).1.home 0 = witnessHeap.home 0 :=
+    step_keeps_homes cfg witnessHeap _ witness_homed (by simp [writes, hp]) 0 (by decide)
+  rw [h2] at h1
+  exact absurd h1 (by decide)
+
+/-- the candidate repair (every entry point relabels foreign targets) meets both clauses, for every history -/
+theorem relabelling_satisfies_both (cfg : Cfg) (hr : ∀ ep, cfg.relabels ep = true) :
+    convert_uses_left_full cfg ∧
+      ∀ (h : Heap) (ep : String) (x : Nat) (t : Target), Homed h →
+        Homed (step cfg h (.convert ep x t)).1 ∧ ∀ a, a < h.n → (step cfg h (.convert ep x t)).1.home a = h.home a := by
+  have hw : ∀ (h : Heap) (ep : String) (x : Nat) (t : Target), writes cfg h (.convert ep x t) = false := by
+    intro h ep x t
+    cases t with
+    | str s => rfl
+    | obj a => simp [writes, hr ep]
+  refine ⟨fun h ep x t hh => convert_uses_left_partial cfg h ep x t hh (Or.inr (hr ep)), fun h ep x t hh => ?_⟩
+  have := step_no_write cfg h (.convert ep x t) hh (hw h ep x t)
+  exact ⟨this.1, this.2.2⟩
 
 /-! ### the live entry points (regenerated table) -/
 
